@@ -323,6 +323,8 @@ def while_loop(interp, st, frame):
             interp.exec_block(st.orelse, frame)
             return
         if forked:
+            if _summarise_step(interp, st, frame):
+                return
             if _summarise_countdown(interp, st, frame):
                 return
         try:
@@ -335,6 +337,37 @@ def while_loop(interp, st, frame):
         if iters > interp.max_iter:
             raise CannotDecide("while loop at %s does not terminate within %d abstract iterations"
                                % (short(st.test), interp.max_iter))
+
+
+_STEP_N = [0]
+
+
+def _summarise_step(interp, st, frame):
+    """``while x < T: x += c`` (and the mirrored forms) with the condition just decided True on a symbolic x:
+    after the loop x = x0 + c*k for some k >= 1 and x lies in the first window of width |c| past the threshold."""
+    if len(st.body) != 1 or st.orelse:
+        return False
+    b, t = st.body[0], st.test
+    if not (isinstance(b, ast.AugAssign) and isinstance(b.target, ast.Name) and isinstance(b.op, (ast.Add, ast.Sub))):
+        return False
+    if not (isinstance(t, ast.Compare) and len(t.ops) == 1 and isinstance(t.left, ast.Name) and t.left.id == b.target.id):
+        return False
+    c, T = interp.eval(b.value, frame), interp.eval(t.comparators[0], frame)
+    if not (isinstance(c, int) and isinstance(T, int)) or isinstance(c, bool) or c <= 0:
+        return False
+    step = c if isinstance(b.op, ast.Add) else -c
+    op = type(t.ops[0])
+    window = {(ast.Lt, True): (T, T + c - 1), (ast.LtE, True): (T + 1, T + c),
+              (ast.Gt, False): (T - c + 1, T), (ast.GtE, False): (T - c, T - 1)}.get((op, step > 0))
+    v = Lin.of(frame.locals.get(b.target.id))
+    if window is None or v is None or isinstance(frame.locals.get(b.target.id), (str, bool)):
+        return False
+    _STEP_N[0] += 1
+    k = Sym("iterations#%d(%s)" % (_STEP_N[0], short(st.test)), 1, INF)
+    new = v + Lin.of(k).scale(step)
+    frame.locals[b.target.id] = new
+    interp._refine(interp.resolve(new), lo=window[0], hi=window[1])
+    return True
 
 
 def _summarise_countdown(interp, st, frame):
